@@ -1,7 +1,7 @@
 #!/bin/bash
 # tools/run_all.sh [quick|thorough] [seed]  -- runs every claimed check, prints one line per check
 TIER=${1:-quick}; export VERIF_SEED=${2:-0}
-cd /verif
+cd "$(dirname "$0")/.."
 for id in $(python3 -c "import json; print(' '.join(c['property_id'] for c in json.load(open('MANIFEST.json'))['checks']))"); do
   s=$(date +%s.%N); out=$(./check $id --tier $TIER 2>&1); rc=$?; e=$(date +%s.%N)
   printf "%s rc=%d %5.1fs  %s\n" $id $rc $(echo "$e - $s" | bc) "$(echo "$out" | grep -E '^\[' | head -1)"
